@@ -100,10 +100,22 @@ fn text_cases(ctx: &mut Ctx, lines: &[String], crlf: bool, final_term: bool, rou
             text.push_str(term);
         }
     }
-    // reference: a final empty unterminated "line" does not exist
-    let mut expected: Vec<String> = lines.to_vec();
-    if !final_term && expected.last().is_some_and(|l| l.is_empty()) {
-        expected.pop();
+    // reference splitter on the text itself: split on LF, remove one CR immediately before the LF;
+    // a final unterminated piece, if not empty, is a line and is kept as is (a lone CR is not a terminator)
+    let mut expected: Vec<String> = vec![];
+    let mut rest = text.as_str();
+    while !rest.is_empty() {
+        match rest.find('\n') {
+            Some(p) => {
+                let l = &rest[..p];
+                expected.push(l.strip_suffix('\r').unwrap_or(l).to_string());
+                rest = &rest[p + 1..];
+            }
+            None => {
+                expected.push(rest.to_string());
+                rest = "";
+            }
+        }
     }
     let n = expected.len();
     let bytes = text.clone().into_bytes();
@@ -207,7 +219,8 @@ fn main() {
     let tmp = tempfile::tempdir().unwrap();
     let rounds = 3;
     let long = "x".repeat(9000);
-    let alphabet: Vec<String> = vec!["".into(), "a".into(), "bc".into(), long];
+    // line contents, including ones that end with (or consist of) a CR, which is not a terminator by itself
+    let alphabet: Vec<String> = vec!["".into(), "a".into(), "bc".into(), long, "d\r".into(), "\r".into()];
     let maxl = if t { 4 } else { 3 };
     for len in 0..=maxl {
         for mut code in 0..alphabet.len().pow(len as u32) {
